@@ -122,7 +122,9 @@ def check_run(filt, sources, exp, x, key, nontriv, zero=None):
     out = filt(list(x), zero=Q(0))
     for s in sources:
       if s.attempts:
-        pass   # building may tee/peek nothing: any read before demand is C02's business
+        return bad(key + ":pulls-at-call", "calling the filter must not read a coefficient stream: it is read once "
+                   "per output sample, and no output has been asked for yet",
+                   {"after_outputs": 0, "pulls": 0}, {"source": s.name, "pulls": s.attempts}, nontriv)
     it = iter(out)
     got = []
     while True:
@@ -457,10 +459,71 @@ def run_conststream(case):
   return R(None, True, mask)
 
 
+# ------------------------------------------- block-by-block use of one filter object
+def gen_blockwise(run):
+  for a0 in KA0:
+    for b0 in KSMALL:
+      for b1 in ("A", "C", "F5", "P", "K"):
+        for a1 in ("A", "C", "F5", "P"):
+          kinds = [b0, b1, "A", a0, a1, "A"]
+          if not any(k[0] in "FPK" for k in kinds):
+            continue
+          for route in ("dict", "expr"):
+            for n1 in (1, 2, 3):
+              yield (kinds, route, n1)
+
+
+def run_blockwise(case):
+  """One stream-bearing filter object applied to a first block (whose end ends the output) and then
+  to a second block: every output sample of either call reads each coefficient stream exactly once,
+  so the second call goes on with the values after those the first call used."""
+  kinds, route, n1 = case
+  n2 = 4
+  num, den = ref_polys(kinds, n1 + n2 + 2)
+  if not num and list(den) == [0]:
+    return R(None, False, "degenerate-zero-filter")
+  x1, x2 = syms("x", n1), syms("u", n2)
+  exp1 = tv_apply(num, den, x1)
+  sources = []
+  try:
+    filt = build_filter(kinds, route, sources)
+    got1 = [Sym.lift(v) for v in filt(list(x1), zero=Q(0))]
+  except Exception as exc:
+    return bad("tv-blocks:exception:" + type(exc).__name__, "first block raised", None, str(exc)[:200], True)
+  if len(got1) != len(exp1) or any(g is None or not (g == e) for g, e in zip(got1, exp1)):
+    return bad("tv-blocks:first", "first block differs from the time-varying recurrence", exp1, got1, True)
+  if len(exp1) < n1:
+    return R(None, False, "coefficient stream ended in the first block")
+  used = [s.pulls for s in sources]
+  if any(u != n1 for u in used):
+    return bad("tv-blocks:pulls", "after a first block of n samples every coefficient stream must have been read n times",
+               n1, used, True)
+  shift = lambda d: {k: s[n1:] for k, s in d.items()}
+  exp2 = tv_apply(shift(num), shift(den), x2)
+  try:
+    got2 = [Sym.lift(v) for v in filt(list(x2), zero=Q(0))]
+  except Exception as exc:
+    return bad("tv-blocks:exception:" + type(exc).__name__, "second block raised", None, str(exc)[:200], True)
+  pulls = [s.pulls for s in sources]
+  if len(got2) != len(exp2) or any(g is None or not (g == e) for g, e in zip(got2, exp2)):
+    return bad("tv-blocks:second", "the second call of the same filter object must use the coefficient values that "
+               "follow those read by the first call (one read per output sample)", exp2, got2, True)
+  for s_, p_ in zip(sources, pulls):
+    want = n1 + len(exp2)
+    if len(exp2) < n2 and p_ == want + 1:
+      continue      # the output ended because ANOTHER coefficient stream ended: this one was asked first
+    if p_ != want and not (s_.ended and p_ < want):
+      return bad("tv-blocks:pulls", "every output sample of either call reads each coefficient stream exactly once",
+                 {"outputs": want, "pulls": want}, {"source": s_.name, "pulls": p_}, True)
+  return R(None, True, (len(exp2), route))
+
+
 KINDS = OrderedDict([
   ("shapes", Kind(gen_shapes, run_shape, chunk=300,
                   rule="coefficient kind placements x construction route; non-trivial: >=1 Stream coefficient")),
   ("sparse", Kind(gen_sparse, run_sparse, chunk=8, rule="stream coefficients on delays 0..2 and 9..12, 30 input samples")),
+  ("blockwise", Kind(gen_blockwise, run_blockwise, chunk=20,
+                     rule="one stream-bearing filter object applied to two consecutive blocks; values and pull counts")),
   ("cancel", Kind(gen_cancel, run_cancel, chunk=4,
                   rule="products / quotients whose operands share a constant polynomial, streams elsewhere")),
   ("algebra", Kind(gen_algebra, run_algebra, chunk=8, rule="(op, f, g) over the pool of stream-bearing filters")),
